@@ -5,11 +5,18 @@ from concurrent.futures import ThreadPoolExecutor
 
 import lib
 from lib import SPEC, MachineryError, extract_prints, new_run_dir, rm_run_dir, run_tlc
+from modelreplay import dlismodel_drift, dlismodel_programs
 
 SEG_ACTIONS = ['Segmenter.WriteSUL', 'Segmenter.BeginRecord', 'Segmenter.SegmentStep', 'Segmenter.Emit', 'Segmenter.FinalFlush']
 M_SEG = {'name': 'Segmenter', 'module': 'MC_Segmenter.tla',
          'cfg': {'quick': 'MC_Segmenter_quick.cfg', 'thorough': 'MC_Segmenter_thorough.cfg'},
          'must_cover': SEG_ACTIONS, 'timeout': {'quick': 900, 'thorough': 7200}}
+
+
+M_DLIS = {'name': 'DlisModel', 'module': 'DlisModel.tla',
+          'cfg': {'quick': 'MC_DlisModel_quick.cfg', 'thorough': 'MC_DlisModel_thorough.cfg'},
+          'must_cover': ['DlisModel.AddLogicalFile', 'DlisModel.AddOrigin', 'DlisModel.AddItem', 'DlisModel.EnterHC', 'DlisModel.LeaveHC'],
+          'timeout': {'quick': 900, 'thorough': 7200}}
 
 
 def seg_drift(programs, traces, jobs):
@@ -116,13 +123,13 @@ REGISTRY = {
     'C05': {'models': [], 'nontrivial': lambda c, p: c['objs'] > 0,
             'rule': 'code: objects of all classes with values per attribute kind and assignment route; TLC compares every assigned attribute of Canon with the decoded object; non-trivial = Canon objects compared',
             'assumptions': COMMON_ASSUME},
-    'C07': {'models': [], 'nontrivial': lambda c, p: c['objs'] > 0 and c['eflrs'] > 0,
+    'C07': {'models': [M_DLIS], 'extra_gen': [dlismodel_programs], 'drift': [dlismodel_drift], 'nontrivial': lambda c, p: c['objs'] > 0 and c['eflrs'] > 0,
             'rule': 'code: object graphs with repeated names, several origins, explicit origin references, origin added late; TLC resolves every reference of the decoded file and compares with the object the history passed',
             'assumptions': COMMON_ASSUME},
     'C08': {'models': [], 'nontrivial': lambda c, p: c['frames'] > 0 and c['fdata'] > 0,
             'rule': 'code: data scenarios + user dimension/element-limit combinations + shared/absent channels; TLC checks decoded descriptors against record lengths',
             'assumptions': COMMON_ASSUME},
-    'C09': {'models': [], 'nontrivial': lambda c, p: c['eflrs'] > 0,
+    'C09': {'models': [M_DLIS], 'extra_gen': [dlismodel_programs], 'drift': [dlismodel_drift], 'nontrivial': lambda c, p: c['eflrs'] > 0,
             'rule': 'code: header variants, origin first/middle/last, classes in random creation order, 1..3 logical files; TLC checks the order clauses on the decoded record sequence',
             'assumptions': COMMON_ASSUME},
     'C11': {'models': [], 'nontrivial': lambda c, p: c['cmp'] > 0,
@@ -131,7 +138,7 @@ REGISTRY = {
     'C13': {'models': [], 'nontrivial': lambda c, p: c['idx'] > 0,
             'rule': 'code: index sequences x dtypes x indexed/not x user-supplied values x windows, and write-write histories; TLC recomputes min/max/differences in integers from the expected rows; non-trivial = an index channel with integer values was judged',
             'assumptions': COMMON_ASSUME},
-    'C18': {'models': [], 'nontrivial': lambda c, p: c['objs'] > 0 and c['files'] > 0,
+    'C18': {'models': [M_DLIS], 'extra_gen': [dlismodel_programs], 'drift': [dlismodel_drift], 'nontrivial': lambda c, p: c['objs'] > 0 and c['files'] > 0,
             'rule': 'code: 1..3 logical files x set-name assignment (distinct/default/partial) x interleavings x inline or write-time data; TLC compares per-logical-file inventories',
             'assumptions': COMMON_ASSUME},
     'C19': {'models': [], 'nontrivial': lambda c, p: c['files'] + c['raised'] > 0,
@@ -143,10 +150,10 @@ REGISTRY = {
     'C14': {'models': [], 'nontrivial': lambda c, p: c['cmp'] > 0,
             'rule': 'code: histories (1..3 other files built and written first, names reused with other origin/copy/type/value, HC entered and left, the same DLISFile written twice, mutation after a write) vs. a fresh process building the final specification alone; TLC compares the bytes of writes whose Canon and expected rows are equal; non-trivial = at least one comparison',
             'assumptions': COMMON_ASSUME},
-    'C17': {'models': [], 'nontrivial': lambda c, p: c['hcev'] > 0 or c['files'] > 0,
+    'C17': {'models': [M_DLIS], 'extra_gen': [dlismodel_programs], 'drift': [dlismodel_drift], 'nontrivial': lambda c, p: c['hcev'] > 0 or c['files'] > 0,
             'rule': 'code: each restricted aspect violated or not x enter/leave patterns (inside, outside, nested, after exception, decorator, after nested exit), followed by a breaching build outside the context; TLC tracks the flag with a stack model and judges flag discipline, breach-written, accepted-outside',
             'assumptions': COMMON_ASSUME},
-    'C20': {'models': [], 'nontrivial': lambda c, p: c['rejected'] > 0 or c['raised'] > 0,
+    'C20': {'models': [M_DLIS], 'extra_gen': [dlismodel_programs], 'drift': [dlismodel_drift], 'nontrivial': lambda c, p: c['rejected'] > 0 or c['raised'] > 0,
             'rule': 'code: for every add_* method rejected calls (wrong type, value outside a hard enumeration, invalid reference, invalid cast dtype) first/between/after accepted same-named ones, in process 1; process 2 runs the history without them; TLC compares inventories with Canon and the projections (copy number, origin, dataset name) of the two processes; failed writes followed by a good one vs. a fresh process',
             'assumptions': COMMON_ASSUME},
 }
